@@ -160,12 +160,15 @@ func c33(c *Ctx) {
 			continue
 		}
 		admit := OneOf{CallTo{upsert}, StoreTo{Addr: "s.pending[*]"}, StoreTo{Addr: "s.ownerSeq[*]"}}
-		c.Guard("R2-seq", fn, admit,
-			"s.tombstoneSeq[*]#1 == false || "+R+".OwnerSeq > s.tombstoneSeq[*]#0",
-			R+".OwnerSeq >= s.ownerSeq[*]",
+		// R may be rooted in a local (commit: the looked-up pending entry); it is a back-reference
+		// resolved from the call argument, so the guards name it ‹admitted›, not by identifier.
+		refs := map[string]string{"admitted": R}
+		c33GuardRef(c, "R2-seq", fn, admit, refs,
+			"s.tombstoneSeq[*]#1 == false || ‹admitted›.OwnerSeq > s.tombstoneSeq[*]#0",
+			"‹admitted›.OwnerSeq >= s.ownerSeq[*]",
 		)
 		// every tombstoneSeq/ownerSeq element touched is the one of R's own identity key
-		c33MapKeysAre(c, "R2-seq", fn, seqMaps, c33P+"makeRouteIdentityKey("+R+")")
+		c33MapKeysAre(c, "R2-seq", fn, seqMaps, c33P+"makeRouteIdentityKey("+R+")", c33P+"makeRouteIdentityKey(‹admitted›)")
 		c33OriginIs(c, "R2-seq", fn, upsert, 1, a.origin)
 		if a.fn != commit { // commit consults the fence but does not advance ownerSeq
 			c.StoreShape("R2-seq", fn, "s.ownerSeq[*]", R+".OwnerSeq")
@@ -179,12 +182,12 @@ func c33(c *Ctx) {
 	unregFn := c.Fn(unreg)
 	if K, ok := c33UniqueArg(c, "R2-seq", unregFn, remove, 1); ok {
 		E, _ := c33UniqueArg(c, "R2-seq", unregFn, remove, 2)
-		c.Guard("R2-seq", unregFn, CallTo{remove}, E+".OwnerSeq <= ownerSeq", "*.active["+K+"]#1 == true")
+		c33GuardRef(c, "R2-seq", unregFn, CallTo{remove}, map[string]string{"removed": E}, "‹removed›.OwnerSeq <= ownerSeq", "*.active["+K+"]#1 == true")
 		c33OriginIs(c, "R2-seq", unregFn, remove, 1, c33P+"makeIdentityKey(identity)")
 		c33OriginIs(c, "R2-seq", unregFn, remove, 2, "*.active["+K+"]#0")
 		c.StoreShape("R2-seq", unregFn, "*.tombstoneSeq["+K+"]", "ownerSeq")
 		c.StoreShape("R2-seq", unregFn, "*.ownerSeq["+K+"]", "ownerSeq")
-		c33MapKeysAre(c, "R2-seq", unregFn, seqMaps, c33P+"makeIdentityKey(identity)")
+		c33MapKeysAre(c, "R2-seq", unregFn, seqMaps, c33P+"makeIdentityKey(identity)", "")
 		c.Guard("R2-seq", unregFn, CallTo{"delete(*.pending, *)"},
 			c33P+"makeRouteIdentityKey(*.route) == "+K, "*.route.OwnerSeq <= ownerSeq")
 	}
@@ -285,14 +288,31 @@ func c33(c *Ctx) {
 	touchFn := c.Fn(touch)
 	clamp := StoreTo{Addr: "route.LastSeenUnix"}
 	if ins := instrsMatching(touchFn, clamp); touchFn != nil && len(ins) == 1 {
-		E := Path(ins[0].(*ssa.Store).Val) // the existing route's LastSeenUnix (back-reference)
-		c33GuardOrPass(c, "R5-expiry", touchFn, CallTo{upsert}, "s.active[*]#1 == false || route.LastSeenUnix >= "+E, clamp)
-		c.Guard("R5-expiry", touchFn, clamp, "route.LastSeenUnix < "+E)
+		E := Path(ins[0].(*ssa.Store).Val) // the existing route's LastSeenUnix (back-reference, named ‹active›.LastSeenUnix in the keys)
 		base := strings.TrimSuffix(E, ".LastSeenUnix")
+		refs := map[string]string{"active": base}
 		if base == E {
 			c.add("shape", "R5-expiry", c.P.Name(touchFn)+"#clamp-source", Violated, c.P.InstrPos(ins[0]), "LastSeenUnix is clamped to "+E+", not to the LastSeenUnix of the existing active route")
 		} else {
-			c.StoreShape("R5-expiry", touchFn, base, "s.active["+c33P+"makeRouteIdentityKey(route)]#0", "s.active[*]#0")
+			c33GuardOrPass(c, "R5-expiry", touchFn, CallTo{upsert}, "s.active[*]#1 == false || route.LastSeenUnix >= ‹active›.LastSeenUnix", clamp, refs)
+			c33GuardRef(c, "R5-expiry", touchFn, clamp, refs, "route.LastSeenUnix < ‹active›.LastSeenUnix")
+			// ‹active› is the route currently stored under the touched route's own identity key
+			want := []string{"s.active[" + c33P + "makeRouteIdentityKey(route)]#0", "s.active[*]#0"}
+			var srcBad []string
+			srcs := instrsMatching(touchFn, StoreTo{Addr: base})
+			for _, in := range srcs {
+				if st, ok := in.(*ssa.Store); !ok || !globAny(want, Path(st.Val)) {
+					srcBad = append(srcBad, c.P.InstrPos(in))
+				}
+			}
+			switch construct := c.P.Name(touchFn) + "#clamp-source"; {
+			case len(srcs) == 0:
+				c.add("shape", "R5-expiry", construct, Undecided, c.P.InstrPos(ins[0]), "the value LastSeenUnix is clamped to ("+E+") is never assigned (vacuous)")
+			case len(srcBad) > 0:
+				c.add("shape", "R5-expiry", construct, Violated, srcBad[0], fmt.Sprintf("LastSeenUnix is clamped to %s, which is assigned something other than %v at %s", E, want, strings.Join(srcBad, ", ")))
+			default:
+				c.add("shape", "R5-expiry", construct, Held, c.P.InstrPos(srcs[0]), fmt.Sprintf("%d assignment(s) of the clamp source, all from %v", len(srcs), want))
+			}
 		}
 	} else if touchFn != nil {
 		c.add("shape", "R5-expiry", c.P.Name(touchFn)+"#clamp", Violated, c.P.Pos(touchFn.Pos()), fmt.Sprintf("expected exactly one store clamping route.LastSeenUnix up to the existing route's value, found %d", len(ins)))
@@ -438,7 +458,8 @@ func c33FieldLoadBase(v ssa.Value) (c33FieldOf, bool) {
 
 // c33MapKeysAre: every lookup / update / delete on the maps in fields fvs inside fn uses a key
 // that is (possibly through a single-assignment local) the value rendering to want.
-func c33MapKeysAre(c *Ctx, rule string, fn *ssa.Function, fvs []*types.Var, want string) {
+// label (if not empty) replaces want in the obligation key: want may mention a back-referenced local.
+func c33MapKeysAre(c *Ctx, rule string, fn *ssa.Function, fvs []*types.Var, want, label string) {
 	if fn == nil {
 		return
 	}
@@ -469,7 +490,10 @@ func c33MapKeysAre(c *Ctx, rule string, fn *ssa.Function, fvs []*types.Var, want
 			}
 		}
 	}
-	construct := c.P.Name(fn) + "#sequence-map-keys=" + want
+	if label == "" {
+		label = want
+	}
+	construct := c.P.Name(fn) + "#sequence-map-keys=" + label
 	switch {
 	case n == 0:
 		c.add("shape", rule, construct, Undecided, c.P.Pos(fn.Pos()), "no tombstoneSeq/ownerSeq access found (vacuous)")
@@ -843,12 +867,14 @@ func c33ReachWithout(fn *ssa.Function, target ssa.Instruction, barrier map[ssa.I
 
 // c33GuardOrPass: every instruction matching eff is reachable only through an edge
 // establishing guard, or after executing an instruction matching pass (e.g. a clamping store).
-func c33GuardOrPass(c *Ctx, rule string, fn *ssa.Function, eff Effect, guard string, pass Effect) {
+// ‹name› placeholders in guard are back-references resolved through refs (see c33GuardRef).
+func c33GuardOrPass(c *Ctx, rule string, fn *ssa.Function, eff Effect, guard string, pass Effect, refs map[string]string) {
 	if fn == nil {
 		return
 	}
 	name := c.P.Name(fn)
 	construct := name + "#" + eff.String() + "⇐" + guard + " || pass: " + pass.String()
+	guard = c33Deref(guard, refs)
 	effs := instrsMatching(fn, eff)
 	if len(effs) == 0 {
 		c.add("guard", rule, construct, Undecided, c.P.Pos(fn.Pos()), "no instruction matches the effect (vacuous)")
@@ -900,6 +926,53 @@ func c33GuardOrPass(c *Ctx, rule string, fn *ssa.Function, eff Effect, guard str
 		return
 	}
 	c.add("guard", rule, construct, Held, c.P.InstrPos(effs[0]), fmt.Sprintf("%d effect site(s); %d guard edge(s) [%s], %d pass instruction(s); no unguarded path", len(effs), len(removed), strings.Join(dedup(descr), "; "), len(passes)))
+}
+
+func c33Deref(s string, refs map[string]string) string {
+	for k, v := range refs {
+		s = strings.ReplaceAll(s, "‹"+k+"›", v)
+	}
+	return s
+}
+
+// c33GuardRef is c.Guard for guards that mention values the caller resolved structurally (call
+// arguments, stored values: SSA identity). A guard names such a value ‹name›; for matching the
+// placeholder is replaced by refs[name] (the value's rendering in fn), the obligation key keeps the
+// placeholder. The rule therefore does not depend on the identifier of any local variable.
+func c33GuardRef(c *Ctx, rule string, fn *ssa.Function, eff Effect, refs map[string]string, guards ...string) {
+	if fn == nil {
+		return
+	}
+	name := c.P.Name(fn)
+	c.FuncsAnalysed[name] = true
+	effs := instrsMatching(fn, eff)
+	if len(effs) == 0 {
+		c.add("guard", rule, name+"#"+eff.String(), Undecided, c.P.Pos(fn.Pos()), "no instruction matches the effect (vacuous)")
+		return
+	}
+	for _, gs := range guards {
+		construct := name + "#" + eff.String() + "⇐" + gs
+		real := c33Deref(gs, refs)
+		if strings.Contains(real, "‹") {
+			c.add("guard", rule, construct, Undecided, c.P.InstrPos(effs[0]), "guard uses a back-reference that was not resolved")
+			continue
+		}
+		g := parseGuard(real)
+		removed, descr := guardEdges(fn, g)
+		c.EdgesRemoved += len(removed)
+		limit := reachUnguarded(fn, removed, g.afters)
+		var bad []string
+		for _, e := range effs {
+			if lim, ok := limit[e.Block()]; ok && indexIn(e.Block(), e) < lim {
+				bad = append(bad, c.P.InstrPos(e))
+			}
+		}
+		if len(bad) > 0 {
+			c.add("guard", rule, construct, Violated, bad[0], fmt.Sprintf("effect %q in %s reachable without guard %q at %s", eff.String(), name, real, strings.Join(bad, ", ")))
+			continue
+		}
+		c.add("guard", rule, construct, Held, c.P.InstrPos(effs[0]), fmt.Sprintf("%d effect site(s); %d guard edge(s) removed [%s]; no unguarded path from entry (back-references %v)", len(effs), len(removed), strings.Join(dedup(descr), "; "), refs))
+	}
 }
 
 // c33SlotOrigin: the shard (rendered path) an authority-slot pointer was obtained from.
